@@ -137,9 +137,11 @@ def nestedPersist (tb : TB) (ctx : PCtx) (np : List Bytes) (ops : List (Bytes ×
 structure Group where
   /-- through `ctx.GetParentContext()` instead of `ctx` itself -/
   parent : Bool
-  /-- `WithFieldOverrides(ovr)` on the context first (`none`: not called).  On `ctx` itself the change
-      stays for the rest of the entity write; a parent context is derived afresh for every block. -/
-  ovr : Option (List (Bytes × Bytes))
+  /-- `WithFieldOverrides(m)` on the context first, once per table, in order (empty: not called; each
+      call STACKS another `MappedFieldChecker`, so a later table renames before an earlier one).  On
+      `ctx` itself the change stays for the rest of the entity write; a parent context is derived
+      afresh for every block. -/
+  ovr : List (List (Bytes × Bytes))
   /-- `GetOrCreatePath(np...)` below the context's bucket (empty: the context's bucket itself) -/
   np : List Bytes
   ops : List (Bytes × FieldOp)
@@ -151,9 +153,9 @@ structure RunState where
   nested : List (Option BErr) := []
   panicked : Bool := false
 
-def applyOvr (ctx : PCtx) : Option (List (Bytes × Bytes)) → PCtx
-  | none => ctx
-  | some m => ctx.withOverrides m
+def applyOvr (ctx : PCtx) : List (List (Bytes × Bytes)) → PCtx
+  | [] => ctx
+  | m :: r => applyOvr (ctx.withOverrides m) r
 
 /-- the context a block writes through (`none`: `GetParentContext` dereferences nil) -/
 def groupCtx (st : RunState) (g : Group) : Option PCtx :=
